@@ -288,7 +288,7 @@ theorem multiLine_plain {cfg : Config} (hc : PlainCfg cfg) (m : MatcherI) (inp :
       · exact mlTrailing_plain hc inp hp
     · rw [hl] at e
       simp at e
-  refine ⟨byteCount st', ?_, ?_⟩
+  refine ⟨byteCount cfg st', ?_, ?_⟩
   · rw [multiLine_eq, hpre]
     simp [finishRun, finish_eq, Run.events, hev, hp.bbo, st0]
   · rw [multiLine_eq, hpre]
